@@ -8,7 +8,7 @@ from .common import *
 
 UNITS = ["queue", "source", "apply"]
 
-SELF_SYMS = ("call:_dispatch_lock_value_for_self", "call:_dispatch_tid_self", "call:_dispatch_lock_value_from_tid")
+SELF_SYMS = ("call:_dispatch_lock_value_for_self", "call:_dispatch_tid_self", "call:_dispatch_lock_value_from_tid", "load:tid")
 
 # acquiring sites that legitimately do not satisfy the generic guard, one reason each
 ACQUIRE_EXCEPTIONS = {
@@ -43,7 +43,8 @@ def rule_TR1(rep, prog, q, ts):
                 resume_delta = q.SUSPEND_INTERVAL
         owner0 = (t.old.k0 & q.OWNER) == q.OWNER
         unlocked_idle = owner0 and t.old.uhi - resume_delta < q.WIDTH_FULL_BIT and t.old.ulo >= resume_delta
-        exact = bool(t.old.eq_exprs) and owner0 and (t.old.k0 & q.IN_BARRIER)
+        # exact compare against the idle value: the shape of that value is C02-TR2's obligation
+        exact = bool(t.old.eq_exprs) and owner0 and t.origin == "_dispatch_queue_try_acquire_barrier_sync_and_suspend"
         rep.require(rid, unlocked_idle or exact, t.where, t.origin, "acquire-guard:%s" % t.origin,
                     "%s installs the caller as drain owner on a path whose guards do not exclude a current owner / IN_BARRIER / full width / "
                     "suspension in the old state (old known-zero bits %#x, range [%#x,%#x]): two threads could drain the same serial queue"
@@ -246,6 +247,26 @@ def run(rep, tier="quick", srcdir=None, only=None):
         # a parked dispatch_sync waiter must only be released by the real lock hand-off (shared with C05)
         from . import C05
         C05.rule_WR3(rep, ir.Program(build.facts_for(["shims/lock"], srcdir=srcdir)))
+
+
+def run_thorough(rep, srcdir=None, only=None):
+    """cross-check: the universal (for-all-transitions) rules are re-evaluated on the module built WITH the always-inliner, where every
+    inlined copy of a state transition appears in its caller's context (constant arguments folded, caller guards visible)"""
+    if only:
+        return
+    facts = build.facts_for("all", mode="all", srcdir=srcdir)
+    prog = ir.Program(facts)
+    q = Q(srcdir)
+    ex = trans.Extractor(prog, "thorough")
+    ex.compute_argbits()
+    ts = []
+    for fn in sorted(prog.all_functions(), key=lambda f: f.name):
+        ts.extend(ex.transitions(fn, DQ_STATE, plain=True))
+    rep.extra["inlined_form_transitions"] = len(ts)
+    n0 = len(rep.findings)
+    sub = report_sub(rep)
+    rule_TR1(sub, prog, q, ts)
+    merge_sub(rep, sub, 'C02-TR1i', 'C02-TR1 re-evaluated on the fully inlined modules')
 
 
 MANIFEST = {
